@@ -51,7 +51,7 @@ man = {
     }],
     'checks': checks,
     'not_applicable': na,
-    'notes': 'exit codes: 0 held / 1 replayed violation / 2 inconclusive (never success). Known genuine defects: known_findings.json. Seeded faults: seeded/. See DESIGN.md.',
+    'notes': 'exit codes: 0 held / 1 replayed violation / 2 inconclusive (never success). Known genuine defects: known_findings.json. Seeded faults: seeded/ (rounds 1-8). Behaviour-preserving changes the checks must stay silent on: benign/ (tools/ben_eval.py). See DESIGN.md 8.5-8.13.',
 }
 json.dump(man, open(os.path.join(HERE, 'MANIFEST.json'), 'w'), indent=1)
 print('checks:', [c['property_id'] for c in checks]); print('n/a:', [x['property_id'] for x in na])
